@@ -103,7 +103,9 @@ func certTable(md *mMeta) string {
 // ---------- generators ----------
 
 var c06Words = []string{"alice", "bob", "Alice Smith", "smith", "a@example.com", "bob@example.org", "x", "Zoë", "O'Neil", "a&b", "<tag>", "\"quoted\"", "staff", "admin", "users",
-	"member@example.edu", "日本語", "a b  c", "100%", "#1", "p=q;r", "😀"}
+	"member@example.edu", "日本語", "a b  c", "100%", "#1", "p=q;r", "😀",
+	// characters that only survive with the canonical write settings on every serialisation hop
+	"Alice\rSmith", "x\r\ny", "\r", "tab\there", "line\nfeed", " lead", "trail ", "a\r\rb", "<!-- c -->", "&#xD;"}
 
 func word(r *rand.Rand) string {
 	if r.Intn(4) == 0 {
@@ -122,7 +124,7 @@ func genSession(r *rand.Rand) mSession {
 	w := func() string { return word(r) }
 	s := mSession{
 		Create: time.Date(2015, 12, 1, 1, 0, 0, 0, time.UTC).Add(time.Duration(r.Intn(3600000)) * time.Millisecond),
-		Index:  maybe(r, 4, func() string { return fmt.Sprintf("idx-%x", r.Uint32()) }),
+		Index:  maybe(r, 4, func() string { return pick(r, []string{fmt.Sprintf("idx-%x", r.Uint32()), fmt.Sprintf("idx-%x", r.Uint32()), "i\rx", "i\tx", "i\nx", " i "}) }),
 		NameID: maybe(r, 8, w), SubjectID: maybe(r, 2, w),
 		UserName: maybe(r, 3, w), Email: maybe(r, 3, w), CommonName: maybe(r, 3, w), Surname: maybe(r, 3, w),
 		GivenName: maybe(r, 3, w), ScopedAff: maybe(r, 2, w), EPPN: maybe(r, 2, w),
